@@ -1,3 +1,4 @@
+import re
 from collections.abc import Iterable
 
 from formulaic.utils.code import format_expr, sanitize_variable_names
@@ -31,7 +32,16 @@ def sanitize_python_code(expr: str) -> str:
     expr = format_expr(
         sanitize_variable_names(expr, {}, aliases, template="_formulaic_{}")
     )
-    while aliases:
-        alias, orig = aliases.popitem()
-        expr = expr.replace(alias, f"`{orig}`")
+    # Restore the original (backtick-quoted) names in a single pass, matching
+    # whole identifiers only so that one alias can never corrupt another alias
+    # or an unrelated name that happens to contain it.
+    aliases = {alias: orig for alias, orig in aliases.items() if alias != orig}
+    if aliases:
+        expr = re.sub(
+            r"\b(?:"
+            + "|".join(re.escape(a) for a in sorted(aliases, key=len, reverse=True))
+            + r")\b",
+            lambda match: f"`{aliases[match.group(0)]}`",
+            expr,
+        )
     return expr
